@@ -5,8 +5,26 @@ ROOT = os.path.dirname(os.path.abspath(__file__))
 PY = "/venv/bin/python"
 CHECKS = {
  "C01": dict(cat="exploration", tech="reference-model monitor: every Exp call vs longdouble/mpmath matrix exponential on hostile magnitude ladders",
-             text="Runtime monitor compares every Exp result of a hostile ladder workload (all four algebras, both dtypes, dense around eps/sqrt(eps), angles to 3*pi, batch ranks 0-3) with an independent matrix exponential; held on the executions observed, not a proof.",
-             note="Trusted: numpy longdouble scaling-and-squaring oracle (validated against mpmath each run); tolerances 64*eps (rotation/scale), 8*sqrt(eps) relative + 64*eps*|tau| floor (translation); CPU only.", ref="DESIGN.md §3 C01"),
+   text="Runtime monitor compares every Exp result of a hostile ladder workload (all four algebras, both dtypes, dense around eps/sqrt(eps), angles to 3*pi, batch ranks 0-3) with an independent case-split-free matrix exponential; held on the executions observed, not a proof.",
+   note="Trusted: numpy longdouble scaling-and-squaring oracle (validated against mpmath each run); tolerances 64*eps (rotation/scale), 8*sqrt(eps) relative + 64*eps*|tau| floor (translation); CPU only.", ref="DESIGN.md 3 C01"),
+ "C02": dict(cat="exploration", tech="reference-model monitor: expm(generator(Log X)) vs reference matrix of X, principal-branch / hemisphere / inverse metamorphic monitors",
+   text="Every Log result of ladder workloads built from (axis, angle, t, s) (angles dense near 0 and pi, both hemispheres, the three index sets of the quaternion log, scales e^+-8) is checked through an independent matrix exponential, plus |phi|<=pi, Log(q)=Log(-q), Log(Inv X)=-Log X and Log(Exp x)=x away from pi.",
+   note="Trusted: longdouble expm oracle (mpmath-validated per run); C01 block tolerances; comparisons near pi only through the matrix exponential.", ref="DESIGN.md 3 C02"),
+ "C04": dict(cat="exploration", tech="program-level monitor: random typed LieTensor expression trees, autograd vs Richardson finite differences in left-perturbation coordinates; NaN sanitizer (anomaly mode + isfinite), leaf write check",
+   text="Reverse-mode gradients of every operator alone (identity / tiny / thin-band / generic / large rotation) and of random well-typed programs to depth 6 (shared leaves, broadcasting, random cotangents, all four groups) are compared with a finite-difference oracle in tangent coordinates; last slot zero, finiteness, float32 agreement, and the Jacobian front-ends (functional.jacobian, modjac, func.jacrev, modjacrev/fwd) contracted against the same oracle. All 32 hand-written backward classes must be observed.",
+   note="Trusted: FD oracle through pypose's forward ops (decided by C01/C02/C03/C05); tolerance 1e-6 relative + FD spread + documented sim3 truncation bound; Jinvp only away from zero rotation; CPU.", ref="DESIGN.md 3 C04"),
+ "C05": dict(cat="exploration", tech="reference-model monitor: adjoint / retraction / Jinvp / Jr identities judged in the longdouble matrix domain; FD metamorphic monitor",
+   text="Adj, AdjT (linear form vee(M a^ M^-1) and literal expm identity), Retr / + / add / add_ in 9 operand variants, Jinvp against Jl^-1 from the commutator series (Sim3 up to the documented truncation bound) and against finite differences, Jr against the matrix-exponential block formula and the first-order statement, on hostile ladders for all four groups and both dtypes.",
+   note="Trusted: lie_ref longdouble oracles; Sim3 Jinvp judged only where the documented series has a usable remainder bound.", ref="DESIGN.md 3 C05"),
+ "C06": dict(cat="fault_enumeration", tech="exhaustive shape-pair sweep + handled-function table + purity registry with ATen write-watch (TorchDispatchMode) + sys.monitoring failpoints at every LINE event inside retain_ltype/jacrev-wrapped functions",
+   text="(1) all 2479 broadcastable lshape pairs (rank<=3, extents 0..3) x every unary/binary op x four types: result meta-data and items vs the flattened op; (2) every HANDLED_FUNCTIONS entry vs torch on the plain tensor, constructors, Parameter, deepcopy; (3) ~200 registry calls over the public surface with bitwise before/after of all argument tensors; (4) an exception injected at each of the measured LINE events (complete sweep) of five wrapped scenarios plus natural faults; the three patched torch attributes must be the originals.",
+   note="Trusted: torch's own broadcasting as shape oracle; purity judged on explicit arguments; failpoints in pypose/harness frames only (not inside torch); CPU.", ref="DESIGN.md 3 C06"),
+ "C07": dict(cat="exploration", tech="client-boundary spies (solver, strategy, corrector, update_parameter) + finite-difference tangent Jacobian oracle + reference weight expansion and damping recurrence",
+   text="One monitored GN/LM step on random residual models (mixed Euclidean / algebra / group parameters, 1-2 outputs, batch rank 0-3, frozen parameter, random programs): R and J handed to the corrector equal the model residual and the FD left-perturbation Jacobian; the recorded A, b equal WJ', -WR' (GN) or the clamped/damped recurrence (LM); the solver's answer solves it (min-norm for PINV); the update is addition / left retraction; frozen parameters untouched.",
+   note="Trusted: FD Jacobian oracle (1e-6 relative); corrector and kernel outputs taken from the spies (decided by C09); Cholesky/CG only on PD systems (see known finding F09).", ref="DESIGN.md 3 C07"),
+ "C08": dict(cat="fault_enumeration", tech="trace monitor: event log per step() replayed by an offline protocol checker; engineered wall models; solver fault injected at every solve index",
+   text="Per step() call the spies produce (SOLVE UPDATE LOSS STRATEGY [RESTORE])* traces; the checker enforces <= reject+1 trials, returned == optimizer.loss == recomputed robust loss at the final parameters, no worse loss unless rejections exhausted, restore to pre-trial parameters, clean end on solver failure, documented Constant/Adaptive/TrustRegion transitions within bounds, GN loss/last bookkeeping. Histories up to 30 calls; models engineered so that the first k trials increase the loss (k=0..reject+1 observed); the solver raises at every j of a measured dry run.",
+   note="Trusted: loss recomputed through the model forward and kernel objects; strategy ratios within 1e-9 of a threshold are not judged.", ref="DESIGN.md 3 C08"),
 }
 NOT_BUILT = "check not built yet (in progress); no claim is made for this property in this commit"
 def main():
